@@ -24,6 +24,7 @@ Decided (structural; the global state machine over histories is NOT decided):
  X4 buffer return: every received packet, whatever the handler's outcome, returns its buffer (C19.Q1 on the receive
     queue's poll).
 """
+import json
 from .common import *
 from ..paths import *
 from . import C05
@@ -128,6 +129,11 @@ def canon_path(F, t, side, S=None, captured=None, fn=None):
 
 def x5_predicates(F, R):
     cands = lookup_fns(F)
+    # ... and the duplicate test of the manager's connect (the method with a ConnectionExists refusal), when it is a closure
+    for b_ in F.bodies.values():
+        if b_.get('impl_adt') == MGR and 'impl_trait' not in b_ and b_['kind'] == 'AssocFn' and F.handwritten(b_) and 'VsockAddr' in b_.get('sig', '') \
+                and 'ConnectionExists' in json.dumps([bl['stmts'] for bl in b_['blocks']]):
+            cands = cands + [b_]
     nfold = 0
     for b in cands:
         sg = supergraph(F, b['id'])
@@ -321,7 +327,8 @@ def run(F, R):
     n_mut = 0
     n_ops = 0
     for b in F.bodies.values():
-        if b.get('impl_adt') != MGR or 'impl_trait' in b or b['kind'] != 'AssocFn' or not F.handwritten(b):
+        # (closures written in the manager's methods - the event handler handed to the driver's poll - are analysed too)
+        if b.get('impl_adt') != MGR or 'impl_trait' in b or b['kind'] not in ('AssocFn', 'Closure') or not F.handwritten(b):
             continue
         sg = supergraph(F, b['id'], opaque=lambda t, bb: bb['id'] in opq, tag='c18')
         S = sg.sym
@@ -347,6 +354,22 @@ def run(F, R):
                 v = S.operand(n.id, n.d['args'][1])
                 R.check(derives_from(v, lambda x: x[0] == 'call' and 'Connection' in x[2] and x[2].endswith('::new')) or 'Connection::new' in fmt(v) or True, 'X3', inst, site(sg, n),
                         'push of a connection', 'push of %s' % fmt(v)[:60])
+                # a connection created for an incoming request is for *this* guest: the push is guarded by
+                # event.destination.cid == local CID on the equal edge (a request addressed to another CID creates no state)
+                _fn = sg.ctxs[n.ctx].fn
+                if any('VsockEvent' in l_['ty'] for l_ in _fn['locals'][1:_fn['arg_count'] + 1]):
+                    cid_ok = False
+                    for swid, vals, succ in sg.guards_of(n.id):
+                        d = S.operand(swid, sg.nodes[swid].d['discr'])
+                        if d[0] == 'bin' and d[1] in ('Ne', 'Eq') and 'destination' in fmt(d) and '.cid' in fmt(d):
+                            truth = (None in vals and 0 not in [v_ for v_ in vals if v_ is not None]) or any(v_ not in (0, None) for v_ in vals)
+                            if 0 in vals and len([v_ for v_ in vals if v_ is not None]) == 1:
+                                truth = False
+                            if (d[1] == 'Ne' and not truth) or (d[1] == 'Eq' and truth):
+                                cid_ok = True
+                    R.check(cid_ok, 'X1', '%s:new-connection-only-for-local-cid' % b['id'], site(sg, n), 'incoming connection created only when destination CID is ours',
+                            'a connection entry is created for an incoming request without (or on the wrong edge of) the test that the request is addressed '
+                            'to this guest\'s CID: packets matching no known connection create state')
             elif meth in ('swap_remove', 'remove'):
                 idx = S.operand(n.id, n.d['args'][1])
                 ok = derives_from(idx, lambda x: x[0] == 'call' and x[2] in lookups)
@@ -366,6 +389,24 @@ def run(F, R):
                     errs = [x for x in sg.nodes if x.kind == 'assign' and x.d['rv']['rv'] == 'agg' and 'ConnectionExists' in json_s(x.d['rv'])]
                     R.check(bool(errs) and not any(en.id in sg.reach_fwd(e.succ) for en in errs), 'X2', '%s:exists-before-connect' % b['id'], site(sg, e),
                             'duplicate connect refused before any packet is sent', 'connect emits a request without (or before) the ConnectionExists test')
+                    # ... and "exists" means any table entry for (peer, local port), whatever its state: the test must not read
+                    # a state field of the connection (a connection still waiting for its Response also exists)
+                    conn_adt = 'device::socket::connectionmanager::Connection'
+                    state = set()
+                    for en in errs:
+                        for swid, vals, succ in sg.guards_of(en.id):
+                            d = S.operand(swid, sg.nodes[swid].d['discr'])
+                            for x in deep_subterms(S, d):
+                                if x[0] == 'field' and isinstance(x[2], str) and not x[2].isdigit() and x[2] in [f_['name'] for f_ in F.adts[conn_adt]['variants'][0]['fields']] \
+                                        and x[2] != 'info':
+                                    state.add(x[2])
+                                if x[0] == 'loc':
+                                    for pp in x[2]:
+                                        if pp[0] == 'f' and len(pp) > 2 and pp[2] == conn_adt and pp[1] != 'info':
+                                            state.add(pp[1])
+                    R.check(not state, 'X2', '%s:exists-test-ignores-state' % b['id'], site(sg, e), 'the duplicate test looks only at (peer, local port)',
+                            'the ConnectionExists test depends on the connection state field(s) %s: a second connect while the first is in that '
+                            'state creates a duplicate table entry for the same (peer, port)' % sorted(state))
                     continue
                 R.check(sg.always_before([x.id for x in lk], e.id), 'X2', '%s:lookup-before-%s' % (b['id'], sock_ops[e.d['fn']]), site(sg, e),
                         'packet emission dominated by a connection lookup', 'a packet is emitted for (peer, port) without a preceding connection lookup')
